@@ -4,8 +4,9 @@ C15 — property theorems (statements only; helper lemmas live in `Proofs/C15*.l
 What is proved here is about the executable model `Mahotas.C15` that the native driver runs and
 that the correspondence check compares with the real `mahotas.thin` / `mahotas.euler`, and about
 the tables the translator extracts from `_thin.cpp` and `euler.py` on every run.
-Not proved (validated by the check only): that Gray's bit-quad sum equals components − holes
-(exhaustive small scope + random), and the Graham scan (`hullOK` is evaluated on the real output).
+Not proved in general (validated by the check only): that Gray's bit-quad sum equals components −
+holes (exhaustive small scope + random); proved for pixels, rectangles, rings and far-apart unions
+of them, with the invariances of the sum (`C15_euler_*`, round 3, end of this file).
 -/
 import Mahotas.Proofs.C15
 import Mahotas.Proofs.C15Thin
